@@ -49,6 +49,7 @@ def obligations(tier):
         k_api.obligation(tier, {"C02"}, "O2.4 end to end: transformed training frame has <= max_n_mod labels, each >= min_freq_mod frequent, NaN per dropna",
                          ["BinaryCarver", "ContinuousCarver"], ns=[4] if tier == "quick" else [4, 5], max_pats=8 if tier == "quick" else 30),
         k_select.obligation(tier, {"C02"}, "O2.1a returned groupings respect max_n_mod (NaN group included), min_freq_mod on train and dev, dev rank agreement - any measure", "abstract"),
+        k_select.obligation_cont(tier, {"C02"}, "O2.1c ContinuousCarver: returned groupings respect max_n_mod, min_freq_mod, NaN handling (any measure value)"),
         k_select.obligation(tier, {"C02"}, "O2.1b same with the real measures on solver-chosen crosstabs", "real"),
         Obligation(name="O2.2 BinaryCarver._printer: frequency and target_rate equal their definitions", harness=h_printer, jobs=pj,
                    encodes=["BinaryCarver._printer"], bounds="k<=4 modalities, symbolic positives, one modality possibly absent", twin_every=2),
